@@ -332,6 +332,57 @@ def check_loader(run):
                             theorem="C18_failure_preserves")
 
 
+def check_own_functions(run):
+    """a module's own `model` / `residual` are kept; only what is missing gets
+    the default wrapper"""
+    from nanite import model
+
+    def own_residual(params, delta, data, weight_cp=5e-7):
+        return np.full_like(np.asarray(delta, float), 52.0)
+
+    def own_model(params, delta):
+        return np.full_like(np.asarray(delta, float), 7.0)
+    for tag, has_m, has_r in [("neither", False, False),
+                              ("own-residual", False, True),
+                              ("own-model", True, False),
+                              ("both", True, True)]:
+        m = base_module("nv_own_" + tag.replace("-", "_"))
+        if has_m:
+            m.model = own_model
+        if has_r:
+            m.residual = own_residual
+        run.case({"own-functions": tag}, kind="own-functions")
+        try:
+            md = model.register_model(m)
+        except BaseException as e:
+            run.failing(SITE_R, "own-functions:" + tag, f"registration "
+                        f"raised {type(e).__name__}: {e}",
+                        payload={"kind": "rerun"})
+            continue
+        try:
+            x = np.linspace(1e-6, -1e-6, 5)
+            p = md.get_parameter_defaults()
+            reg = model.models_available[m.model_key]
+            why = None
+            for inst in (md, reg):
+                if has_r and not np.array_equal(
+                        inst.residual(p, x, np.zeros(5), 5e-7),
+                        np.full(5, 52.0)):
+                    why = "the module's own residual was replaced"
+                if has_m and not np.array_equal(inst.model(p, x),
+                                                np.full(5, 7.0)):
+                    why = "the module's own model was replaced"
+                if not callable(inst.model) or not callable(inst.residual):
+                    why = "model / residual missing after registration"
+            if why:
+                run.failing(SITE_R, "own-functions:" + tag,
+                            f"module with {tag}: {why}",
+                            payload={"kind": "rerun"},
+                            theorem="C18_register_available")
+        finally:
+            model.deregister_model(md)
+
+
 def check_reload(run):
     """the model-development workflow on ONE path: load, edit the file, load
     again; load a faulty file, correct it, load again -- every load must
@@ -623,6 +674,7 @@ def check(run):
     check_mutants(run)
     check_loader(run)
     check_reload(run)
+    check_own_functions(run)
     check_sequences(run)
     check_seeding(run)
     run.exhaustive = True
